@@ -78,7 +78,7 @@ categories = Flags.all().to_set()
 
 
 def xdist_running(config):
-    return (
+    return hasattr(config, "workerinput") or (
         hasattr(config.option, "numprocesses")
         and config.option.numprocesses is not None
         and config.option.numprocesses != 0
